@@ -22,6 +22,8 @@ UNIVERSES = {
     "bigneg": [-7, -1, 0, 3, 2**31 + 7, 2**40, -(2**33), 12],
     "str": ["a", "b", "E1", "N2", "10", "n", "zz", "E"],
     "npint": [np.int64(i) for i in (0, 1, 2, 5, 9, 11, 30, 31)],
+    "float": [0.5, 1.5, -2.25, 3.0, 10.0, 7.75, 1e9, 0.1],
+    "intfloat": [1, 2.5, 3, 4.5, -1, 0.25, 100, 7],
 }
 LAYERS = [["L1", "L2"], ["a", "b", "c"], ["x", "y", "z", "E"], ["social", "work"], ["", "b"], [0, 1, 2]]
 WEIGHTS = [0.5, 1, 1.5, 2, 2.5, 3, 7, 2.0, 1.0, 0, 0.0]
@@ -40,7 +42,7 @@ def new_container(kind, weighted):
 
 
 class Cfg:
-    def __init__(self, rng, kind, long=False, uni=None, weighted=None):
+    def __init__(self, rng, kind, long=False, uni=None, weighted=None, big=False):
         self.kind = kind
         self.weighted = rng.random() < 0.5 if weighted is None else weighted
         self.uni_name = uni or rng.choice(list(UNIVERSES))
@@ -52,6 +54,12 @@ class Cfg:
         self.max_size = rng.choice([2, 3, 3, 4, 5])
         self.n_ops = rng.randint(150, 300) if long else rng.randint(5, 40)
         self.invalid_rate = rng.choice([0.0, 0.1, 0.15])
+        if big:  # scale: tens of labels, hundreds of hyperedges, hundreds of operations
+            self.uni_name = "wide"
+            base = rng.choice([0, 1000, -50])
+            self.labels = [base + 3 * i for i in range(rng.randint(30, 60))]
+            self.max_size = 6
+            self.n_ops = rng.randint(400, 800)
         self.use_constructor = False  # start from a constructor call with edge lists / metadata (C01-C04 set this)
         self.avoid = set()  # op families to avoid (used while a finding is open)
 
@@ -148,7 +156,7 @@ def gen_op(rng, cfg, S):
     invalid = rng.random() < cfg.invalid_rate
     ekeys = sorted(S.edges, key=lambda k: repr(sorted_key(k)))
     nkeys = sorted(S.nodes, key=repr)
-    absent_nodes = [n for n in UNIVERSES[cfg.uni_name] if n not in S.nodes]
+    absent_nodes = [n for n in (UNIVERSES[cfg.uni_name] if cfg.uni_name in UNIVERSES else cfg.labels) if n not in S.nodes]
 
     if name == "add_node":
         pool = cfg.labels if rng.random() < 0.7 or not nkeys else nkeys
